@@ -56,13 +56,29 @@ def job_call(shape, size, absorbing, rot):
     from holopy.scattering import calc_holo, calc_scat_matrix, Tmatrix
     from holopy.core.metadata import detector_points
     sc = make_scatterer(shape, size, absorbing, tuple(rot))
+    from holopy.scattering.theory import Lens
     d = detector_points(theta=np.array([0.1, 0.7, 1.0]), phi=np.array([0.3, 2.0, 5.0]), r=300.0)
-    s = calc_scat_matrix(d, sc, medium_index=NMED, illum_wavelen=WL, theory=Tmatrix()).values
     det = hp.detector_grid(4, 0.3)
     sc2 = sc.translated(0.6, 0.6, 8.0)
-    h = calc_holo(det, sc2, medium_index=NMED, illum_wavelen=WL, illum_polarization=(1, 0),
-                  theory=Tmatrix()).values
-    return "finite" if (np.all(np.isfinite(s)) and np.all(np.isfinite(h))) else "nonfinite"
+    okw = dict(medium_index=NMED, illum_wavelen=WL)
+    # every public route on its own: a route may raise, none may hand back non-finite numbers
+    routes = [lambda: calc_scat_matrix(d, sc, theory=Tmatrix(), **okw).values,
+              lambda: calc_holo(det, sc2, illum_polarization=(1, 0), theory=Tmatrix(), **okw).values,
+              lambda: calc_holo(hp.detector_grid(2, 0.4), sc2, illum_polarization=(1, 0),
+                                theory=Lens(0.6, Tmatrix(), 6, 6), **okw).values]
+    raised, last = 0, None
+    for k, route in enumerate(routes):
+        try:
+            v = route()
+        except Exception as e:          # a Python exception is an allowed answer
+            raised += 1
+            last = e
+            continue
+        if not np.all(np.isfinite(v)):
+            return "nonfinite"
+    if raised == len(routes):
+        raise last
+    return "finite" if raised == 0 else "finite_or_raised"
 
 
 def rel(a, b):
@@ -126,7 +142,7 @@ def run(ctx):
         if r is None:
             raise harness.MachineryError("child produced no record for %r" % (c,))
         if r["outcome"] == "returned":
-            outcome = "finite" if r["result"] == "finite" else "nonfinite"
+            outcome = {"finite": "finite", "finite_or_raised": "exception"}.get(r["result"], "nonfinite")
         elif r["outcome"] == "exception":
             outcome = "exception"
         else:
